@@ -250,11 +250,16 @@ func execLife(o *Out, id, line string) {
 		typ := kv["t"]
 		data := unhx(kv["stream"])
 		plain := unhx(kv["plain"])
-		for k := 0; k < len(data); k++ {
+		srcKinds := []string{kv["src"]}
+		if kv["src"] == "all" {
+			srcKinds = append([]string{"byte", "byteeof"}, realKinds...)
+		}
+		for kk := 0; kk < len(data)*len(srcKinds); kk++ {
+			k, src := kk/len(srcKinds), srcKinds[kk%len(srcKinds)]
 			if len(data) > 400 && k%7 != 0 && k > 40 && k < len(data)-40 {
 				continue
 			}
-			rd, _ := newReaderOf(typ, mkSource(kv["src"], data[:k], -1, 0, nil, []int{2, 9}), data[:k])
+			rd, _ := newReaderOf(typ, mkSource(src, data[:k], -1, 0, nil, []int{2, 9}), data[:k])
 			if rd == nil {
 				continue
 			}
@@ -266,7 +271,7 @@ func execLife(o *Out, id, line string) {
 				return
 			}
 			if e != io.ErrUnexpectedEOF {
-				o.Violate("C09", fmt.Sprintf("%s stream cut at %d of %d ends with %v, not io.ErrUnexpectedEOF", typ, k, len(data), e), "trunc-class", line)
+				o.Violate("C09", fmt.Sprintf("%s stream cut at %d of %d read through source %s ends with %v, not io.ErrUnexpectedEOF", typ, k, len(data), src, e), "trunc-class", line)
 				break
 			}
 			if !bytes.HasPrefix(plain, got) {
@@ -464,6 +469,21 @@ func genLife(r *Rand, tier string, emit func(string)) {
 			if t == "flate" || t == "brotli" || t == "bzip2" {
 				srcs := []string{"bytes", "byte", "readonly"}
 				emit(fmt.Sprintf("trunc t=%s src=%s stream=%s plain=%s", t, srcs[r.Intn(3)], hx(s), hx(plain)))
+				if i == 0 && len(s) < 300 {
+					emit(fmt.Sprintf("trunc t=%s src=all stream=%s plain=%s", t, hx(s), hx(plain)))
+				}
+			}
+			if t == "flate" && i == 0 {
+				// stored, fixed and dynamic blocks in one stream (three sync flushes)
+				var bb bytes.Buffer
+				pl := []byte("stored-block-payload")
+				zw, _ := stdflate.NewWriter(&bb, stdflate.NoCompression)
+				zw.Write(pl)
+				zw.Flush()
+				zw.Write([]byte("second"))
+				zw.Flush()
+				zw.Close()
+				emit(fmt.Sprintf("trunc t=flate src=all stream=%s plain=%s", hx(bb.Bytes()), hx(append(pl, "second"...))))
 			}
 		}
 		pools[t] = p
